@@ -203,11 +203,26 @@ Theorem C11_nested_foralls_have_distinct_keys :
 Proof. exact nested_foralls_have_distinct_keys. Qed.
 
 (* ---- deliberately unsound variants, and the two known findings about key freshness *)
-Theorem C11_noflip_variant_refuted : ~ enforces (MkCfg false true).
+Theorem C11_noflip_variant_refuted : ~ enforces (MkCfg false true false).
 Proof. exact noflip_variant_refuted. Qed.
 
-Theorem C11_seethrough_variant_refuted : ~ enforces (MkCfg true false).
+Theorem C11_seethrough_variant_refuted : ~ enforces (MkCfg true false false).
 Proof. exact seethrough_variant_refuted. Qed.
+
+(* deduplicating sealing contracts is unsound (the defect fixed by 88c71d0) *)
+Theorem C11_dedup_variant_refuted :
+  run_line cfg_dedup 60 own_result = "OK [#1,#2]" /\ run_line cfg_real 60 own_result = "ERR Blame+".
+Proof. exact dedup_variant_refuted. Qed.
+
+Theorem C11_array_contract_twice_seals_twice :
+  forall n k l t p,
+    lookup_tyvar k (ltenv l) = Some p -> p <> lpol l ->
+    let once := wrap_elem (CVar k) l t in
+    let twice := wrap_elem (CVar k) l once in
+    force cfg_real (S n) twice = Ok (VSealed k (Th [("%e", once)] (Var "%e")) (flip l))
+    /\ force cfg_real (S (S n)) (Th [("%e", once)] (Var "%e"))
+       = Ok (VSealed k (Th [("%e", t)] (Var "%e")) (flip l)).
+Proof. exact array_contract_twice_seals_twice. Qed.
 
 Theorem C11_cross_contract_keys_refuted :
   eval cfg_real 30 [] launder = Ok (VNum 2) /\ ~ blamed_outcome (eval cfg_real 30 [] launder).
